@@ -10,46 +10,60 @@ import (
 type iterItem struct {
 	considerLink interface{}
 	yield        entry
+	// notified: the link has been reported as added or removed; an item that is
+	// pushed back and considered again is not reported a second time
+	notified bool
+	// level of the node the link leads to: the root link has the tree's height,
+	// a child link one less than its parent (pass-through nodes included)
+	level int
+}
+
+// notify says whether the item's link has yet to be reported, and marks it.
+// (The mark used to be a table of the last link reported per level, and to find
+// a link's level every pass-through node below it was loaded, down to the first
+// node with a key - also where both versions share that chain.)
+func (item *iterItem) notify() bool {
+	if item.notified {
+		return false
+	}
+	item.notified = true
+	return true
 }
 
 type diffState struct {
-	alreadyNotifiedOldLink map[uint8]interface{}
-	alreadyNotifiedNewLink map[uint8]interface{}
-	oldStack               iterItemStack
-	newStack               iterItemStack
-	oldMast                *Mast
-	addedLink              interface{}
-	removedLink            interface{}
-	curKey                 interface{}
-	hasAdd                 bool
-	hasRemove              bool
-	addedValue             interface{}
-	removedValue           interface{}
+	oldStack     iterItemStack
+	newStack     iterItemStack
+	oldMast      *Mast
+	addedLink    interface{}
+	removedLink  interface{}
+	curKey       interface{}
+	hasAdd       bool
+	hasRemove    bool
+	addedValue   interface{}
+	removedValue interface{}
 }
 
 func newDiffState(oldMast *Mast, newMast *Mast) *diffState {
 	var dc diffState
-	dc.alreadyNotifiedOldLink = map[uint8]interface{}{}
-	dc.alreadyNotifiedNewLink = map[uint8]interface{}{}
 	if oldMast != nil {
 		dc.oldMast = oldMast
-		dc.oldStack = rootItemStack(oldMast.root)
+		dc.oldStack = rootItemStack(oldMast.root, int(oldMast.height))
 	}
-	dc.newStack = rootItemStack(newMast.root)
+	dc.newStack = rootItemStack(newMast.root, int(newMast.height))
 	return &dc
 }
 
 // rootItemStack starts a traversal at a tree's root link. An empty tree (no
 // top node after deletes, or the entry-less top node of a new tree) has
 // nothing to traverse; pushing its nil link would be taken for an entry.
-func rootItemStack(root interface{}) iterItemStack {
+func rootItemStack(root interface{}, height int) iterItemStack {
 	if root == nil {
 		return iterItemStack{}
 	}
 	if node, ok := root.(*mastNode); ok && node.isEmpty() {
 		return iterItemStack{}
 	}
-	return newIterItemStack(iterItem{considerLink: root})
+	return newIterItemStack(iterItem{considerLink: root, level: height})
 }
 
 func (dc *diffState) resetCurrent() {
@@ -135,14 +149,14 @@ func (m *Mast) diffOne(
 		return ErrNoMoreDiffs
 	} else if o == nil && n != nil {
 		if n.considerLink != nil {
-			if !m.alreadyNotified(ctx, "new", dc.alreadyNotifiedNewLink, n.considerLink) {
+			if n.notify() {
 				dc.addedLink = n.considerLink
 			}
 			newNode, err := m.load(ctx, n.considerLink)
 			if err != nil {
 				return fmt.Errorf("load: %w", err)
 			}
-			dc.newStack.pushNode(newNode)
+			dc.newStack.pushNode(newNode, n.level)
 		} else {
 			dc.curKey = n.yield.Key
 			dc.addedValue = n.yield.Value
@@ -150,14 +164,14 @@ func (m *Mast) diffOne(
 		}
 	} else if o != nil && n == nil {
 		if o.considerLink != nil {
-			if !dc.oldMast.alreadyNotified(ctx, "old", dc.alreadyNotifiedOldLink, o.considerLink) {
+			if o.notify() {
 				dc.removedLink = o.considerLink
 			}
 			oldNode, err := dc.oldMast.load(ctx, o.considerLink)
 			if err != nil {
 				return fmt.Errorf("load: %w", err)
 			}
-			dc.oldStack.pushNode(oldNode)
+			dc.oldStack.pushNode(oldNode, o.level)
 		} else {
 			dc.curKey = o.yield.Key
 			dc.removedValue = o.yield.Value
@@ -171,9 +185,11 @@ func (m *Mast) diffOne(
 				}
 				// One of the two subtrees comes later in the other version's traversal:
 				// the versions share it, everything in front of it there is one-sided,
-				// and it is skipped when it meets itself. Open only the other link.
-				if dc.newStack.hasLink(o.considerLink) {
-					if !m.alreadyNotified(ctx, "new", dc.alreadyNotifiedNewLink, n.considerLink) {
+				// and it is skipped when it meets itself. Open only the other link. The
+				// same when the nodes are of different levels: only the higher one is
+				// opened, the lower one may be one of its descendants.
+				if dc.newStack.hasLink(o.considerLink) || o.level < n.level {
+					if n.notify() {
 						dc.addedLink = n.considerLink
 					}
 					newNode, err := m.load(ctx, n.considerLink)
@@ -181,88 +197,42 @@ func (m *Mast) diffOne(
 						return fmt.Errorf("load: %w", err)
 					}
 					dc.oldStack.push(o)
-					dc.newStack.pushNode(newNode)
+					dc.newStack.pushNode(newNode, n.level)
 					return nil
 				}
-				if dc.oldStack.hasLink(n.considerLink) {
-					if !dc.oldMast.alreadyNotified(ctx, "old", dc.alreadyNotifiedOldLink, o.considerLink) {
+				if dc.oldStack.hasLink(n.considerLink) || o.level > n.level {
+					if o.notify() {
 						dc.removedLink = o.considerLink
 					}
 					oldNode, err := dc.oldMast.load(ctx, o.considerLink)
 					if err != nil {
 						return fmt.Errorf("load: %w", err)
 					}
-					dc.oldStack.pushNode(oldNode)
+					dc.oldStack.pushNode(oldNode, o.level)
 					dc.newStack.push(n)
 					return nil
 				}
-				if !dc.oldMast.alreadyNotified(ctx, "old", dc.alreadyNotifiedOldLink, o.considerLink) {
+				// Same level, and neither node comes later in the other version's
+				// traversal: each belongs to one version only. Open both, pass-through
+				// nodes like any other (their one child is a level further down), so that
+				// children meet children of their own level: what the two versions share
+				// below then meets itself and is skipped unread.
+				if o.notify() {
 					dc.removedLink = o.considerLink
 				}
-				if !m.alreadyNotified(ctx, "new", dc.alreadyNotifiedNewLink, n.considerLink) {
+				if n.notify() {
 					dc.addedLink = n.considerLink
 				}
 				oldNode, err := dc.oldMast.load(ctx, o.considerLink)
 				if err != nil {
 					return fmt.Errorf("load: %w", err)
 				}
-				if len(oldNode.Link) == 1 {
-					dc.oldStack.pushLink(oldNode.Link[0])
-					dc.newStack.push(n)
-					if m.debug {
-						fmt.Printf("  oldStack descending through empty intermediate\n")
-					}
-					return nil
-				}
-				oldKey := oldNode.Key[0]
 				newNode, err := m.load(ctx, n.considerLink)
 				if err != nil {
 					return fmt.Errorf("load: %w", err)
 				}
-				if len(newNode.Link) == 1 {
-					dc.oldStack.push(o)
-					dc.newStack.pushLink(newNode.Link[0])
-					if m.debug {
-						fmt.Printf("  newStack descending through empty intermediate\n")
-					}
-					return nil
-				}
-				newKey := newNode.Key[0]
-				// Nodes of different levels: open only the higher one. The lower one may
-				// be one of its descendants (a subtree the two versions share), which is
-				// then skipped when the two links meet instead of being walked.
-				oldLayer, err := dc.oldMast.keyLayer(oldKey, dc.oldMast.branchFactor)
-				if err != nil {
-					return fmt.Errorf("layer: %w", err)
-				}
-				newLayer, err := m.keyLayer(newKey, m.branchFactor)
-				if err != nil {
-					return fmt.Errorf("layer: %w", err)
-				}
-				// A top node also holds the keys of higher layers: its level is the
-				// tree's height, whatever the layer of its first key.
-				if oldLayer > dc.oldMast.height {
-					oldLayer = dc.oldMast.height
-				}
-				if newLayer > m.height {
-					newLayer = m.height
-				}
-				if oldLayer > newLayer {
-					dc.oldStack.pushNode(oldNode)
-					dc.newStack.push(n)
-					return nil
-				} else if oldLayer < newLayer {
-					dc.oldStack.push(o)
-					dc.newStack.pushNode(newNode)
-					return nil
-				}
-				// Same level: neither node comes later in the other version's traversal
-				// (looked for above), so each belongs to one version only. Open both: if
-				// only the one with the smaller first key is opened, its first child meets
-				// the other, still closed, node, and a chain of pass-through nodes below
-				// it is walked down to its end although both versions share it.
-				dc.oldStack.pushNode(oldNode)
-				dc.newStack.pushNode(newNode)
+				dc.oldStack.pushNode(oldNode, o.level)
+				dc.newStack.pushNode(newNode, n.level)
 			}
 		} else if o.considerLink != nil && n.considerLink == nil {
 			if next := dc.newStack.nextLink(); (next != nil && next.considerLink == o.considerLink) || dc.newStack.hasLink(o.considerLink) {
@@ -275,14 +245,14 @@ func (m *Mast) diffOne(
 				dc.hasAdd = true
 				return nil
 			}
-			if !dc.oldMast.alreadyNotified(ctx, "old", dc.alreadyNotifiedOldLink, o.considerLink) {
+			if o.notify() {
 				dc.removedLink = o.considerLink
 			}
 			oldNode, err := dc.oldMast.load(ctx, o.considerLink)
 			if err != nil {
 				return fmt.Errorf("load: %w", err)
 			}
-			dc.oldStack.pushNode(oldNode)
+			dc.oldStack.pushNode(oldNode, o.level)
 			dc.newStack.push(n)
 		} else if o.considerLink == nil && n.considerLink != nil {
 			if next := dc.oldStack.nextLink(); (next != nil && next.considerLink == n.considerLink) || dc.oldStack.hasLink(n.considerLink) {
@@ -293,7 +263,7 @@ func (m *Mast) diffOne(
 				dc.hasRemove = true
 				return nil
 			}
-			if !m.alreadyNotified(ctx, "new", dc.alreadyNotifiedNewLink, n.considerLink) {
+			if n.notify() {
 				dc.addedLink = n.considerLink
 			}
 			newNode, err := m.load(ctx, n.considerLink)
@@ -301,7 +271,7 @@ func (m *Mast) diffOne(
 				return fmt.Errorf("load: %w", err)
 			}
 			dc.oldStack.push(o)
-			dc.newStack.pushNode(newNode)
+			dc.newStack.pushNode(newNode, n.level)
 		} else {
 			// both yields
 			cmp, err := m.keyOrder(o.yield.Key, n.yield.Key)
@@ -328,44 +298,6 @@ func (m *Mast) diffOne(
 		}
 	}
 	return nil
-}
-
-func (m *Mast) alreadyNotified(ctx context.Context, name string, linkByHeight map[uint8]interface{}, link interface{}) bool {
-	path := []interface{}{}
-	myLink := link
-	var keyHeight uint8
-	for {
-		path = append(path, myLink)
-		node, err := m.load(ctx, myLink)
-		if err != nil {
-			return false
-		}
-		if len(node.Link) == 1 {
-			myLink = node.Link[0]
-			continue
-		}
-		key := node.Key[0]
-		keyHeight, err = m.keyLayer(key, m.branchFactor)
-		if err != nil {
-			return false
-		}
-		break
-	}
-	res := false
-	for i, l := range path {
-		if l != link {
-			continue
-		}
-		if linkByHeight[keyHeight+uint8(i)] == link {
-			res = true
-		} else {
-			linkByHeight[keyHeight+uint8(i)] = l
-		}
-	}
-	if res && m.debug {
-		fmt.Printf("already notified %s\n", name)
-	}
-	return res
 }
 
 type iterItemStack struct {
@@ -420,18 +352,18 @@ func (stack *iterItemStack) hasLink(link interface{}) bool {
 	return false
 }
 
-func (stack *iterItemStack) pushNode(node *mastNode) {
+func (stack *iterItemStack) pushNode(node *mastNode, level int) {
 	for n := range node.Key {
 		i := len(node.Key) - n
-		stack.pushLink(node.Link[i])
+		stack.pushLink(node.Link[i], level-1)
 		stack.pushYield(node, i-1)
 	}
-	stack.pushLink(node.Link[0])
+	stack.pushLink(node.Link[0], level-1)
 }
 
-func (stack *iterItemStack) pushLink(link interface{}) {
+func (stack *iterItemStack) pushLink(link interface{}, level int) {
 	if link != nil {
-		stack.push(&iterItem{considerLink: link})
+		stack.push(&iterItem{considerLink: link, level: level})
 	}
 }
 
